@@ -109,6 +109,7 @@ type FuncInfo struct {
 	results  []*T
 	mutates  []bool
 	usesRx   bool
+	usesTstr bool // Term.String() through the interface: the oracle tstr : dterm -> bytes
 	rk       retKind
 	payload  string
 	fullRet  string
@@ -124,6 +125,7 @@ type Tr struct {
 	emitted   map[string]bool
 	mutMemo   map[string][]bool
 	rxMemo    map[string]int
+	tstrMemo  map[string]int
 	// per function
 	fn      *FuncInfo
 	counter int
@@ -220,6 +222,7 @@ func (tr *Tr) info(key string, at ast.Node) *FuncInfo {
 	}
 	fi.mutates = tr.mutatesOf(key)
 	fi.usesRx = tr.usesRxOf(key)
+	fi.usesTstr = tr.usesTstrOf(key)
 	tr.finishSig(fi)
 	tr.infos[key] = fi
 	return fi
@@ -475,6 +478,37 @@ func (tr *Tr) usesRxOf(key string) bool {
 	return uses
 }
 
+// usesTstrOf: the function (or, by name, a function it may call) contains a call x.String() without
+// arguments on something that is not a package name.  An over-approximation made before types are
+// known; the translation of the call itself (exprs.go) decides: only String() through the interface
+// Term becomes the oracle `tstr`, every other String() is translated as a method or refused.
+func (tr *Tr) usesTstrOf(key string) bool {
+	if v, ok := tr.tstrMemo[key]; ok {
+		return v == 1
+	}
+	tr.tstrMemo[key] = 0
+	d := tr.p.funcs[key]
+	uses := false
+	ast.Inspect(d.Body, func(n ast.Node) bool {
+		if c, ok := n.(*ast.CallExpr); ok {
+			if f, ok := c.Fun.(*ast.SelectorExpr); ok && f.Sel.Name == "String" && len(c.Args) == 0 {
+				uses = true
+			}
+			keys, _ := tr.candidates(c)
+			for _, k := range keys {
+				if tr.usesTstrOf(k) {
+					uses = true
+				}
+			}
+		}
+		return true
+	})
+	if uses {
+		tr.tstrMemo[key] = 1
+	}
+	return uses
+}
+
 // ---------- translation of one function ----------
 
 func (tr *Tr) translate(key string, at ast.Node) *FuncInfo {
@@ -494,6 +528,9 @@ func (tr *Tr) translate(key string, at ast.Node) *FuncInfo {
 	var sig []string
 	if fi.usesRx {
 		sig = append(sig, "(rx : bytes -> bytes -> option bool)")
+	}
+	if fi.usesTstr {
+		sig = append(sig, "(tstr : dterm -> bytes)")
 	}
 	for i, p := range fi.params {
 		cn := tr.fresh(p.goName)
